@@ -317,6 +317,11 @@ def encoder_settings(tier, seed):
     part = [([min1_] * 3, [opt_] * 3, ()), ([min1_] * 3, [one_] * 3, ()), ([min2_] * 2, [opt_] * 4, ()), ([min1_] * 4, [one_] * 4, ())]
     for w in (part if tier == 'thorough' else part[:3]):
         sp.append(w + ('present-only',))
+    # a source that needs more connections than one edge can carry (minimum 2 or 3, no parallel connections): every
+    # repair has to spread the connections over several targets
+    min3_ = (('min', 3), False)
+    for w in (([min2_], [any_] * 3, ()), ([min2_, min1_], [any_] * 3, ()), ([min3_], [any_] * 3, ()), ([min2_], [opt_] * 3, ())):
+        sp.append(w + ('present-only',))
     for w in (wide if tier == 'quick' else wide + [([any_], [opt_] * 4, ()), ([any_, any_], [opt_] * 3, ()), ([any_, any_], [any_, opt_], ())]):
         sp.append(w + ('present-only',))
     # repeatable connections with an explicit limit on parallel connections (1 and 3), in both orientations (pattern
